@@ -190,8 +190,42 @@ def _core(e):
     return x
 
 
-def _check_threeway(expr, macro, where, findings, site):
+def _through_helper(expr, macro, where, findings, site, tu):
+    """the comparison factored into a function `int f(a, b) { return <cmp>; }`:
+    -> the function's return expression, after checking that passing the
+    operands does not change their values (parameter types as wide as, and of
+    the same signedness as, the operands)"""
+    x = _strip_all(expr)
+    while x is not None and x.k == "CStyleCastExpr":
+        x = _strip_all(x.kids[0])
+    if tu is None or x is None or x.k != "CallExpr":
+        return expr
+    c = callee(x)
+    if c[0] != "fn" or c[1] not in tu.funcs or tu.body(c[1]) is None:
+        return expr
+    rets = [n for n in tu.body(c[1]).walk() if n.k == "ReturnStmt" and n.kids]
+    stmts = [n for n in tu.body(c[1]).kids if n.k not in ("NullStmt",)]
+    if len(rets) != 1 or len(stmts) != 1:
+        return expr
+    from .convert import narrowing
+    params = tu.params(c[1])
+    for a, p in zip(x.kids[1:], params):
+        src = (_strip_all(a).t or "").strip()
+        dst = (p.t or "").strip()
+        if src != dst and narrowing(src, dst):
+            findings.append(dict(
+                rule="CMP-MACRO", function="(macro) %s" % macro, file=site.sf or site.f, line=site.sl or site.l,
+                construct="%s passes a %s operand to %s(%s %s): the value changes before it is compared"
+                          % (macro, src, c[1], dst, p.n),
+                detail="the comparison helper takes its operands as %s; a %s key is converted on the "
+                       "way in (values of 2**63 and more become negative / the high half is cut off), "
+                       "so large keys sort before small ones; expanded at %s" % (dst, src, where), path=[]))
+    return rets[0].kids[0]
+
+
+def _check_threeway(expr, macro, where, findings, site, tu=None):
     try:
+        expr = _through_helper(expr, macro, where, findings, site, tu)
         tw = ThreeWay(expr)
         if tw.K is None:
             raise AnalysisError("CMP-MACRO: no comparison found in %s expansion at %s" % (macro, where))
@@ -307,7 +341,7 @@ def cmp_macros(tu):
                                    "so the error branch must be taken exactly "
                                    "when an exception is pending; expanded at %s" % where, path=[]))
             else:
-                n += _check_threeway(rhs, "TEST_KEY_SET_OR", where, findings, node)
+                n += _check_threeway(rhs, "TEST_KEY_SET_OR", where, findings, node, tu)
                 for res in (-1, 0, 1):
                     n += 1
                     if _errtest_value(cond, res, False):
@@ -323,7 +357,7 @@ def cmp_macros(tu):
             where = "%s (%s:%s)" % (fname, node.f, node.l)
             core = _core(node)
             if not _has_call(core, "PyObject_RichCompareBool"):
-                n += _check_threeway(core, "TEST_VALUE", where, findings, node)
+                n += _check_threeway(core, "TEST_VALUE", where, findings, node, tu)
             else:
                 n += 1
             return
